@@ -569,12 +569,34 @@ func DefaultOf(d *spec.Design, a *spec.Attr) any {
 	if !a.HasDef {
 		return nil
 	}
-	v := canonScalar(a.Default)
-	k := d.Resolve(a.Type).Kind
-	if f, ok := v.(int64); ok && (k == spec.Float32 || k == spec.Float64) {
-		return float64(f)
+	return defaultVal(d, a.Default, a)
+}
+
+func defaultVal(d *spec.Design, raw any, a *spec.Attr) any {
+	rt := d.Resolve(a.Type)
+	switch rt.Kind {
+	case spec.Array:
+		arr, _ := raw.([]any)
+		out := make([]any, len(arr))
+		for i, e := range arr {
+			out[i] = defaultVal(d, e, rt.Elem)
+		}
+		return out
+	case spec.Map:
+		m, _ := raw.(map[string]any)
+		ks := make([]string, 0, len(m))
+		for k := range m {
+			ks = append(ks, k)
+		}
+		sort.Strings(ks)
+		out := &MapVal{}
+		for _, k := range ks {
+			out.K = append(out.K, k)
+			out.V = append(out.V, defaultVal(d, m[k], rt.Elem))
+		}
+		return out
 	}
-	return v
+	return canonScalarKind(raw, rt.Kind)
 }
 
 // Expected computes what the receiving side must observe for a value that the
